@@ -347,6 +347,27 @@ type rrCase struct {
 	Goroutines int `json:"goroutines"` // 1 = sequential
 	// Rounds > 0: the goroutines leave a spin barrier together and call Balance once each, Rounds times.
 	Rounds int `json:"rounds,omitempty"`
+	// Lists non-empty (sequential only): call k is offered the partitions 0..Lists[k]-1 -- one balancer shared by the topics
+	// of a Writer without Topic, or a topic whose partition count changes.  Only "one of the offered" is decided then.
+	Lists []int `json:"lists,omitempty"`
+}
+
+func runRoundRobinLists(tb ev.TB, c rrCase) {
+	rr := &kafka.RoundRobin{ChunkSize: c.ChunkSize}
+	for k, n := range c.Lists {
+		got, panicked := func() (v int, p interface{}) {
+			defer func() { p = recover() }()
+			return rr.Balance(kafka.Message{Value: []byte{byte(k)}}, parts(n)...), nil
+		}()
+		if panicked != nil {
+			ev.Fail(tb, "rr", "rr/membership-panic", c, "RoundRobin{ChunkSize:%d} call #%d with %d partitions offered (earlier calls: %v) panicked: %v", c.ChunkSize, k, n, c.Lists[:k], panicked)
+			return
+		}
+		if got < 0 || got >= n {
+			ev.Fail(tb, "rr", "rr/membership", c, "RoundRobin{ChunkSize:%d} call #%d returned %d, offered 0..%d (earlier calls: %v)", c.ChunkSize, k, got, n-1, c.Lists[:k])
+			return
+		}
+	}
 }
 
 // runRoundRobinRounds: every round consists of exactly Goroutines calls, which in any sequential order receive the counter
@@ -398,6 +419,10 @@ func runRoundRobin(tb ev.TB, c rrCase) {
 	chunk := c.ChunkSize
 	if chunk < 1 {
 		chunk = 1
+	}
+	if len(c.Lists) > 0 {
+		runRoundRobinLists(tb, c)
+		return
 	}
 	if c.Rounds > 0 && c.Goroutines > 1 {
 		runRoundRobinRounds(tb, c)
@@ -474,10 +499,20 @@ func TestRoundRobin(t *testing.T) {
 		if c.Goroutines > 1 && rapid.IntRange(0, 9).Draw(t, "rrRounds") == 0 {
 			c.Rounds = rapid.SampledFrom([]int{100, 300, 1000}).Draw(t, "rounds")
 		}
+		if c.Goroutines == 1 && rapid.IntRange(0, 3).Draw(t, "varyingLists") == 0 {
+			// two or three topics of different sizes behind one balancer, in runs and interleaved
+			sizes := rapid.SliceOfN(rapid.IntRange(1, 12), 2, 3).Draw(t, "sizes")
+			for k := 0; k < c.Calls; k++ {
+				c.Lists = append(c.Lists, rapid.SampledFrom(sizes).Draw(t, "offered"))
+			}
+		}
 		runRoundRobin(t, c)
 		lbl := "rr_sequential"
 		if c.Goroutines > 1 {
 			lbl = "rr_concurrent"
+		}
+		if len(c.Lists) > 0 {
+			lbl = "rr_varying_partition_lists"
 		}
 		if c.Rounds > 0 {
 			ev.Label("rr_barrier_rounds")
